@@ -10,6 +10,10 @@ def verify_safetynet_timestamp(timestamp_ms: int) -> None:
     # Get "now" in ms
     now = int(time.time()) * 1000
 
+    # A timestamp that is not a number (JSON NaN) compares False against both bounds below
+    if timestamp_ms != timestamp_ms:
+        raise ValueError(f"Payload timestamp {timestamp_ms} was not a number")
+
     # Make sure the response was generated in the past
     if timestamp_ms > (now + grace_ms):
         raise ValueError(f"Payload timestamp {timestamp_ms} was later than {now} + {grace_ms}")
